@@ -389,15 +389,69 @@ fn c16facts(repo: &Path) -> Result<String, String> {
 
     let e = find::func(&f, "eq", Some("PartialEq for ErasedList"))?;
     let et = trace(&e.block);
+    // address-ordered locking: `if Arc::as_ptr(&self.0) < Arc::as_ptr(&other.0) { lock self; lock other }
+    // else { lock other; lock self }`
+    struct Ifs(Vec<syn::ExprIf>);
+    impl<'ast> Visit<'ast> for Ifs {
+        fn visit_expr_if(&mut self, i: &'ast syn::ExprIf) {
+            self.0.push(i.clone());
+            syn::visit::visit_expr_if(self, i);
+        }
+    }
+    let mut ifs = Ifs(vec![]);
+    ifs.visit_block(&e.block);
+    let lock_recvs = |toks: &[Tok]| -> Vec<String> {
+        toks.iter().filter_map(|t| if let Tok::Lock { recv, .. } = t { Some(recv.clone()) } else { None }).collect()
+    };
+    let ordered_if: Vec<&syn::ExprIf> = ifs
+        .0
+        .iter()
+        .filter(|i| {
+            let c = norm(&i.cond);
+            c == "Arc::as_ptr(&self.0)<Arc::as_ptr(&other.0)" || c == "Arc::as_ptr(&self.0)<=Arc::as_ptr(&other.0)"
+        })
+        .collect();
+    let all_locks = lock_recvs(&et);
+    let eq_ordered = match ordered_if.as_slice() {
+        [] => {
+            if all_locks != ["self.0", "other.0"] {
+                return Err(format!("ErasedList::eq: expected lock(self.0) then lock(other.0): {}", show(&et)));
+            }
+            false
+        }
+        [i] => {
+            let then_l = lock_recvs(&trace(&i.then_branch));
+            let else_l = match &i.else_branch {
+                Some((_, e)) => match &**e {
+                    syn::Expr::Block(b) => lock_recvs(&trace(&b.block)),
+                    _ => vec![],
+                },
+                None => vec![],
+            };
+            if then_l != ["self.0", "other.0"] || else_l != ["other.0", "self.0"] || all_locks.len() != 4 {
+                return Err(format!(
+                    "ErasedList::eq: address-ordered locking expected `self, other` / `other, self` in the two branches, found {then_l:?} / {else_l:?}: {}",
+                    show(&et)
+                ));
+            }
+            true
+        }
+        _ => return Err(format!("ErasedList::eq: more than one address comparison: {}", show(&et))),
+    };
     let mut eq_trace = vec![];
     let mut eq_guards: Vec<(String, String)> = vec![];
+    let mut locks_seen = 0;
     for t in &et {
         match t {
             Tok::Lock { recv, bound: Some(b), .. } => {
                 let w = who(recv, &[("self.0", "self"), ("other.0", "other")])
                     .ok_or(format!("ErasedList::eq locks `{recv}`: {}", show(&et)))?;
                 eq_guards.push((b.clone(), w.clone()));
-                eq_trace.push(format!(".lock .{w}"));
+                locks_seen += 1;
+                // the else branch of the ordered form repeats the two locks in the other order
+                if locks_seen <= 2 {
+                    eq_trace.push(format!(".lock .{w}"));
+                }
             }
             Tok::Call { recv, method, .. } if method == "get" || method == "len" => {
                 let w = eq_guards
@@ -419,7 +473,7 @@ fn c16facts(repo: &Path) -> Result<String, String> {
     // `Arc::ptr_eq` short-cut must come first (otherwise `l == l` locks twice)
     let first = e.block.stmts.first().map(|s| norm(s)).unwrap_or_default();
     let ptr_eq_first = first.starts_with("ifArc::ptr_eq(&self.0,&other.0){returntrue;}");
-    notes.push(format!("ErasedList::eq: ptr_eq first = {ptr_eq_first}; {}", show(&et)));
+    notes.push(format!("ErasedList::eq: ptr_eq first = {ptr_eq_first}; address-ordered = {eq_ordered}; {}", show(&et)));
 
     let b = |x: bool| if x { "true" } else { "false" };
     let mut out = String::new();
@@ -429,9 +483,10 @@ fn c16facts(repo: &Path) -> Result<String, String> {
     }
     out.push_str("-/\nimport RotoV.Model.ListConc\nnamespace RotoV.Gen.C16\nopen RotoV.ListConc\n\n");
     out.push_str(&format!(
-        "def facts : Facts :=\n  {{ getUnderGuard := {}\n    ffiGetUnderGuard := {} }}\n\n",
+        "def facts : Facts :=\n  {{ getUnderGuard := {}\n    ffiGetUnderGuard := {}\n    eqOrdered := {} }}\n\n",
         b(get_under),
-        b(ffi_under)
+        b(ffi_under),
+        b(eq_ordered)
     ));
     out.push_str(&format!("def methodShapes : List (Method × Shape) :=\n  [{}]\n\n", shapes.join(", ")));
     out.push_str(&format!("def concatTrace : List LockTok :=\n  [{}]\n\n", concat_trace.join(", ")));
